@@ -151,14 +151,14 @@ def skesk(rep, prog):
                   where=fe.where, expected=exp, found=ct)
         rep.check(any(c[0] == 'self.update_hlen' for c in s.calls), 'C03.3', 'SKESessionKeyV4.encrypt_sk', 'update_hlen',
                   'header length recomputed after the ciphertext is set', where=fe.where)
-    for s in Interp(prog, Scenario(inline=noinline, axioms={'(len(self.ct) == 0)': False})).run(fd):
+    for s in Interp(prog, Scenario(inline=noinline, axioms={'self.ct': True})).run(fd):
         r = render(s.ret)
         D = '_decrypt(self.ct, self.s2k.derive_key(passphrase), self.symalg)'
         exp = '(SymmetricKeyAlgorithm(%s[0]), SLICE(%s;1;))' % (D, D)
         rep.check(r == exp, 'C03.3', 'SKESessionKeyV4.decrypt_sk', 'return %s' % r.replace(D, 'D'),
                   'the reader must take octet 0 as the cipher and the remaining octets as the key, from the same S2K key and cipher',
                   where=fd.where, expected=exp.replace(D, 'D'), found=r.replace(D, 'D'))
-    for s in Interp(prog, Scenario(inline=noinline, axioms={'(len(self.ct) == 0)': True})).run(fd):
+    for s in Interp(prog, Scenario(inline=noinline, axioms={'self.ct': False})).run(fd):
         r = render(s.ret)
         rep.check(r == '(self.symalg, self.s2k.derive_key(passphrase))', 'C03.3', 'SKESessionKeyV4.decrypt_sk', 'no-ESK arm %s' % r,
                   'without an encrypted session key the S2K output is the session key', where=fd.where, found=r)
